@@ -21,11 +21,11 @@ pub mod verif_kani {
     fn any_keystream() { let ks: [u8; 16] = kani::any(); let mut k = 0; while k < 16 { KS[k].store(ks[k], Ordering::Relaxed); k += 1; } }
     use super::inner_crypto::InnerCrypto;
 
+    /// with InnerCrypto::apply replaced by the keystream stub the cipher state is just the keystream position (kept in `i`)
     fn same_rc4(a: &crate::rc4::Rc4, b: &crate::rc4::Rc4) -> bool {
-        let (sa, ia, ja) = verif_rc4_parts(a);
-        let (sb, ib, jb) = verif_rc4_parts(b);
-        let p: u8 = kani::any();
-        ia == ib && ja == jb && sa[p as usize] == sb[p as usize]
+        let (_sa, ia, ja) = verif_rc4_parts(a);
+        let (_sb, ib, jb) = verif_rc4_parts(b);
+        ia == ib && ja == jb
     }
 
     /// a reader that can deliver only the first `avail` bytes of `data` and then fails with an arbitrary error kind
